@@ -14,7 +14,7 @@ LEVEL = "exploration"
 
 KINDS = ["py_int", "py_float", "py_bool", "list_f", "list_i", "nested", "nd_f64", "nd_f32", "nd_f16", "nd_i64", "nd_bool", "nd_0d",
          "nd_readonly", "nd_noncontig", "t_plain", "t_graph", "t_const", "t_view", "t_int"]
-DTYPES = [None, "float16", "float32", "float64", "int32", "bool", "complex128"]
+DTYPES = [None, "float16", "float32", "float64", "int32", "bool", "complex128", ">f8", ">i4"]  # incl. byte-swapped (non-native) dtypes
 ENTRIES = ["tensor", "Tensor", "astensor", "asarray"]
 
 
